@@ -14,7 +14,7 @@ EXPLANATION = ("arburg (and _arburg2) are executed on symbolic data vectors, eve
                "|k_i| <= 1 (directly for the first stage and through a Cauchy-Schwarz lemma over fresh error vectors), agreement with _arburg2, "
                "and that with an order-selection criterion (its decision replaced by an arbitrary boolean) the result is the Burg model of the returned order.")
 BOUNDS = {
-    "quick": "real N in 3..5, complex N in 3..4, order <= 2; |k1|<=1 by CAD for N=3 (real), lemma for error vectors of length <= 3; criteria: order 2, N=4 real",
+    "quick": "real N in 3..5, complex N=3, order <= 2; |k1|<=1 by CAD for N=3 (real), lemma for error vectors of length <= 3; criteria: order 2, N=4 real",
     "thorough": "real N in 3..6, complex N in 3..5, order <= 2, order 3 for N=5 real (decides in ~20 min); lemma length <= 4",
 }
 ASSUMPTIONS = ["floats modelled as exact reals", "Criteria.__call__ replaced by an arbitrary boolean (both outcomes explored)",
